@@ -104,7 +104,7 @@ func (rd *round) buildSet(name, issuer string, s srv) *sharedSet {
 	set := &sharedSet{name: name, issuer: issuer, s: s}
 	scopes := []string{"openid", "profile", "email", "offline_access"}
 	hc := rd.hcShared
-	pkSigner, err := jose.NewSigner(jose.SigningKey{Algorithm: jose.RS256, Key: &jose.JSONWebKey{Key: opdrv.ClientKey("c20pk").Priv, KeyID: pkKid}}, &jose.SignerOptions{})
+	pkSigner, err := jose.NewSigner(jose.SigningKey{Algorithm: jose.ES256, Key: &jose.JSONWebKey{Key: pkKey.Priv, KeyID: pkKid}}, &jose.SignerOptions{})
 	must(err, "signer")
 	ok := rd.lib(func() {
 		var err error
@@ -417,7 +417,8 @@ func (w *worker) srvOp(kind string, ri int) (class string) {
 		if t == nil {
 			return "skipped"
 		}
-		f := url.Values{"grant_type": {string(oidc.GrantTypeTokenExchange)}, "subject_token": {t.access}, "subject_token_type": {string(oidc.AccessTokenType)},
+		subj, styp := subjectOf(t, false, w.r.IntN(3))
+		f := url.Values{"grant_type": {string(oidc.GrantTypeTokenExchange)}, "subject_token": {subj}, "subject_token_type": {string(styp)},
 			"requested_token_type": {string([]oidc.TokenType{oidc.AccessTokenType, oidc.RefreshTokenType, oidc.IDTokenType}[w.r.IntN(3)])}, "scope": {"openid"}}
 		if w.r.IntN(2) == 0 && t.id != "" {
 			f.Set("actor_token", t.id)
@@ -570,7 +571,8 @@ func (w *worker) cliOp(kind string, set *sharedSet) (class string) {
 				if w.r.IntN(2) == 0 {
 					te = set.tePK
 				}
-				_, err = teExchange(te, t.access, []oidc.TokenType{oidc.AccessTokenType, oidc.RefreshTokenType, oidc.IDTokenType}[w.r.IntN(3)])
+				subj, styp := subjectOf(t, cid == "c20jwtat", w.r.IntN(3))
+				_, err = teExchange(te, subj, styp, []oidc.TokenType{oidc.AccessTokenType, oidc.RefreshTokenType, oidc.IDTokenType}[w.r.IntN(3)])
 			}
 		case "c.ts":
 			_, err = tsToken(set.ts)
@@ -616,7 +618,9 @@ func (w *worker) cliOp(kind string, set *sharedSet) (class string) {
 	return "error:" + errStr(err)
 }
 
-func (w *worker) run(n int) {
+// run performs up to n operations and returns how many are left: after an operation that ended in a recovered
+// panic the goroutine retires (its race-detector shadow stack is no longer trustworthy) and a fresh one continues.
+func (w *worker) run(n int) int {
 	rd := w.rd
 	for i := 0; i < n; i++ {
 		var kind, where, class string
@@ -655,8 +659,11 @@ func (w *worker) run(n int) {
 			rd.violation("C20:crosstalk:"+kind, class, map[string]any{"operation": kind, "where": where})
 		case strings.HasPrefix(class, "error:"), strings.HasPrefix(class, "harness"):
 			rd.run.SampleKind("conc-error:"+kind, map[string]any{"operation": kind, "where": where, "round": rd.cfg, "outcome": class})
+		case class == "panic":
+			return n - i - 1
 		}
 	}
+	return 0
 }
 
 // runRound builds the shared instances, lets the goroutines loose, and compares all snapshots at quiescence.
@@ -699,7 +706,11 @@ func runRound(run *ev.Run, r int) {
 		go func(wi int) {
 			defer wg.Done()
 			w := &worker{rd: rd, id: wi, r: run.CaseRand(uint64(100+r), wi), pk: pocket{}}
-			w.run(per)
+			for rem := per; rem > 0; {
+				left := make(chan int)
+				go func() { left <- w.run(rem) }()
+				rem = <-left
+			}
 		}(wi)
 	}
 	wg.Wait()
